@@ -637,4 +637,9 @@ example : PatternCache.run (PatternCache.cfgOf Gen.c10CacheSites) []
     [.gate 0 true, .visit 0 true, .visit 1 false, .visit 1 false, .gate 1 false, .visit 1 true] =
     [.normal, .normal, .compileErr, .compileErr, .compileErr, .normal] := by decide
 
+/-- non-vacuity for a cache that really stores (a repaired `Store` behind the error return): the second validation
+    uses the cached matcher — whatever its own compiler would have said — and nothing panics -/
+example : PatternCache.run ⟨false, true⟩ [] [.visit 0 true, .visit 0 false, .visit 1 false, .visit 1 false] =
+    [.normal, .normal, .compileErr, .compileErr] := by decide
+
 end KinModel.Props.C10
